@@ -153,7 +153,7 @@ class Profile:
         self.ttls = [1, 2, 3, 5, 8, 13]
         self.tlru_ttls = [0, 1, 2, 3, 5, 8, 13, 40]
         self.uttls = [0, 1, 2, 3, 5, 8, 120]
-        self.ticks = [1, 2, 3, 5]
+        self.ticks = [1, 2, 3, 4, 5, 8, 12, 20]
         self.max_range = 5
         self.peek_p = 0.4
         self.variants = [0, 0, 0, 1, 2, 3]
@@ -193,9 +193,38 @@ def gen_cfg(rng, kind, prof):
                 rsh=rsh, fl=rng.choice(prof.flavours), keys=keys)
 
 
+R = 4            # clock ticks per ttl unit (harness/vclock.hpp kTicksPerTtlUnit); ttl unit = 1 ms by default
+COARSE_US = 262144000   # microseconds per tick of the coarse clock: ttl unit = 2^20 ms (about 17.5 minutes)
+
+
 def cfg_line(c):
-    return "cfg %s %d %d %d %d %d %d %d %d %d" % (c["kind"], c["cap"], c["ts"], c["mlf"], c["ttl"], c["tick"], c["rnum"],
-                                                    c["rsh"], c["fl"], c["keys"])
+    return "cfg %s %d %d %d %d %d %d %d %d %d %d" % (c["kind"], c["cap"], c["ts"], c["mlf"], c["ttl"], c["tick"], c["rnum"],
+                                                       c["rsh"], c["fl"], c["keys"], c.get("us", 250))
+
+
+def coarsen(script, factor=700):
+    """The same execution with every ttl, aging tick and clock step multiplied by `factor` on the
+    coarse clock: ttls of weeks to years (beyond 2^31 ms) at the same relative instants."""
+    out = []
+    for ln in script:
+        t = ln.split()
+        if t[0] == "cfg":
+            t[5] = str(int(t[5]) * factor)
+            t[6] = str(int(t[6]) * factor)
+            if len(t) > 11:
+                t[11] = str(COARSE_US)
+            else:
+                t.append(str(COARSE_US))
+        elif t[0] == "ins":
+            t[4] = str(int(t[4]) * factor)
+        elif t[0] == "insr":
+            n = int(t[3])
+            for i in range(n):
+                t[4 + 3 * i + 2] = str(int(t[4 + 3 * i + 2]) * factor)
+        elif t[0] in ("uttl", "tick"):
+            t[1] = str(int(t[1]) * factor)
+        out.append(" ".join(t))
+    return out
 
 
 def gen_execution(rng, kind, prof, cfg=None):
@@ -248,7 +277,7 @@ def gen_execution(rng, kind, prof, cfg=None):
             d = ttl_arg()
             a = wchoice(rng, prof.allow_w)
             lines.append("ins %d %d %d %d" % (k, val(), a, d))
-            dls[k] = now + (d if kind == "tlru" else cur_ttl)
+            dls[k] = now + R * (d if kind == "tlru" else cur_ttl)
             stamps[k] = now
         elif op == "insr":
             m = rng.randint(0, prof.max_range)
@@ -258,7 +287,7 @@ def gen_execution(rng, kind, prof, cfg=None):
                 k = key()
                 d = ttl_arg()
                 kv.append("%d %d %d" % (k, val(), d))
-                dls[k] = now + (d if kind == "tlru" else cur_ttl)
+                dls[k] = now + R * (d if kind == "tlru" else cur_ttl)
                 stamps[k] = now
             lines.append("insr %d %d %d %s" % (a, variant(), m, " ".join(kv)))
         elif op == "era":
@@ -296,11 +325,11 @@ def gen_execution(rng, kind, prof, cfg=None):
             if kind == "lfuda":
                 st = [s for s in stamps.values()]
                 if st and rng.random() < 0.75:
-                    s = rng.choice(st) + c["tick"]
+                    s = rng.choice(st) + R * c["tick"]
                     cands = [s - 1 - now, s - now, s + 1 - now, s + 2 - now]
             cands = [x for x in cands if x >= 1]
             step = rng.choice(cands) if cands else rng.choice(prof.ticks)
-            step = min(step, 200)
+            step = min(step, 800)
             now += step
             lines.append("tick %d" % step)
         elif op == "clean":
